@@ -8,7 +8,8 @@ BUILTINS_EMITTED = ["setattr", "hasattr", "tuple", "list", "slice", "type", "glo
 RISKY = ["_", "__", "k", "v", "self", "it", "itertools", "importlib", "cls", "__ol", "ol_cnt", "_ol_k", "item", "loader", "retv",
          # names CPython gives to the symbol tables of lambdas / comprehensions, and modules the emitted code imports
          "genexpr", "listcomp", "setcomp", "dictcomp", "lambda_", "operator", "top"] + BUILTINS_EMITTED
-ROLES = ["global", "local", "parameter", "loop-target", "function-name", "class-name", "class-attribute", "imported-alias", "nonlocal-cell", "lambda-parameter", "comprehension-target"]
+ROLES = ["global", "local", "parameter", "loop-target", "function-name", "class-name", "class-attribute", "imported-alias", "nonlocal-cell", "lambda-parameter", "comprehension-target",
+         "enclosing-function-name", "enclosing-class-name"]
 FEATURES = {
     "while": "n_ = 2\nwhile n_ > 0:\n    n_ -= 1\n    print('w', n_)",
     "for-break": "for i_ in [1, 2, 3]:\n    if i_ == 2:\n        break\n    print('f', i_)\nelse:\n    print('no')",
@@ -60,6 +61,11 @@ def program(X, role, feat):
         return f"for {X} in [40, 41]:\n{ind(F)}    print({X})\nprint({X})\n"
     if role == "function-name":
         return f"def {X}():\n    return 41\n{F}\nprint({X}())\n"
+    if role == "enclosing-function-name":
+        # the identifier names a function whose locals / parameters are captured by nested functions
+        return f"def {X}(p_):\n    q_ = 1\n    def inner_():\n        nonlocal q_\n        q_ += p_\n        return q_\n{ind(F)}    return inner_(), q_\nprint({X}(40))\n"
+    if role == "enclosing-class-name":
+        return f"def mk_():\n    v_ = 41\n    class {X}:\n        def m(self):\n            return v_\n        w = v_ + 1\n    return {X}\n{F}\nprint(mk_()().m(), mk_().w)\n"
     if role == "class-name":
         return f"class {X}:\n    val = 41\n{F}\nprint({X}.val)\n"
     if role == "class-attribute":
@@ -165,6 +171,8 @@ def main(argv):
                 kf = "KF-D40"
             elif X in BUILTINS_EMITTED:
                 kf = "KF-D41"
+            elif X == "top" and role in ("enclosing-function-name", "function-name", "class-name", "enclosing-class-name"):
+                kf = "KF-D67"
             if kf in kfs:
                 kf_seen[kf] = (X, role, feat)
             else:
@@ -196,7 +204,10 @@ def main(argv):
         if v.startswith("fail"):
             v0, _ = gen_prog.behaviour_check(ol, src, cfg)
             if not v0.startswith("fail"):
-                failing.append((json.dumps(mapping), "alpha-renaming", "-", cfg, v, rsrc, text))
+                if "KF-D67" in kfs and re.search(r"^\s*(def|class) top\b", rsrc, re.M):
+                    kf_seen["KF-D67"] = ("top", "alpha-renaming", "-")
+                else:
+                    failing.append((json.dumps(mapping), "alpha-renaming", "-", cfg, v, rsrc, text))
     k_bad = []
     if b["driver_ok"]:
         for src, cfg, ok, detail in lower_common.compare(ol, pairs):
